@@ -250,8 +250,13 @@ def handleEqual (id : String) (args : List String) : String :=
       let m := Impl.equal x y
       let corr := got = some m
       let mutated := (findTag "mut=" rest) = some "1"
+      let tf (t : Option String) : Option Bool := if t = some "t" then some true else if t = some "f" then some false else none
+      -- symmetry and reflexivity are judged when the harness asked the swapped / the diagonal call as well
+      let rel : Verdict := match findTag "sym=" rest, findTag "refl=" rest with
+        | some s, some rf => c06rel x got (tf (some s)) (tf (some rf))
+        | _, _ => .ok
       reply id corr (if m then "t" else "f")
-        [("C06", c06 x y got), ("C04", if got.isNone then .viol "panic-or-hang" else .ok),
+        [("C06", (c06 x y got).and rel), ("C04", if got.isNone then .viol "panic-or-hang" else .ok),
          ("C09", if mutated then .viol "input-modified" else .ok)]
         ((if (parseCst x).isSome then "v" else "m") ++ (if (parseCst y).isSome then "v" else "m") ++ "/" ++ r)
     | _, _ => bad id "equal-fields"
